@@ -202,6 +202,10 @@ class SharedMemoryFileBufferedCollection(FileBufferedCollection):
                 if not type(self)._buffer[self._filename]["modified"]:
                     type(self)._buffer[self._filename]["modified"] = True
                     type(self)._CURRENT_BUFFER_SIZE += 1
+                # The object saving holds the current data; after an overwrite
+                # without a load (clear, reset) that need not be the object
+                # the buffer referenced so far.
+                type(self)._buffer[self._filename]["contents"] = self._data
             else:
                 self._initialize_data_in_buffer(modified=True)
                 type(self)._CURRENT_BUFFER_SIZE += 1
